@@ -6,12 +6,16 @@ Property theorems only. Model: `Bpmn.Model.IdGen` (port of `pkg/id/fallback.go` 
 `Generator.New` / `Snapshot` / restore as `pkg/id/sno.go` uses them, one step per atomic operation).
 
 Every statement is for schedules of any length (any number of threads, draws, clock ticks, overflow-ticker
-firings, snapshot/restore points). Two facts about the code are parameters of the statement:
+firings, snapshot/restore points). Three facts about the code are parameters of the statement:
 
 * `ser` — is `SnoGenerator.New` serialised by a mutex. With `ser = true` ids are pairwise distinct for every
   schedule (`sno_unique_serialised`). With `ser = false` — the code as it is — the faithful model hands out the same
   id twice (`C20_counterexample_stale_time`, `C20_counterexample_reset_window`).
 * `fbAtomic` — is the fallback counter incremented by one atomic fetch-and-add (it is).
+* `fbSerial` — does `NewFallbackGenerator` mix a per-program serial number (package-level atomic counter) into the
+  prefix. With it, the generators of a program have distinct prefixes whatever the clock says
+  (`fallback_unique_program`); with the clock reading alone, two generators created within one reading collide
+  (`fallback_counterexample_same_clock`).
 -/
 namespace Bpmn.Props.C20
 open Bpmn.Model.IdGen
@@ -20,14 +24,14 @@ open Bpmn.Model.IdGen
 
 /-- One fallback generator, any number of threads, any interleaving of their draws (fewer than 2^64 draws,
 the counter is a `uint64`): ids pairwise distinct, and all carry the generator's prefix. -/
-theorem fallback_unique (p : Nat) (sched : List Nat) (h : sched.length < u64) :
+theorem fallback_unique (p : FbPrefix) (sched : List Nat) (h : sched.length < u64) :
     (fbRun true (fbNew p) sched).out.Nodup ∧ ∀ x ∈ (fbRun true (fbNew p) sched).out, x.pfx = p := by
   have := (fbInv_run p sched (fbNew p) (fbInv_new p) (by simpa [fbNew] using h)).1
   exact ⟨this.nodup, fun x hx => (this.bound x hx).1⟩
 
 /-- Several fallback generators with pairwise distinct prefixes (= creation-time clock readings), each drawn from
 under any interleaving (generators share no state, so a global interleaving is a schedule per generator). -/
-theorem fallback_unique_across (gs : List (Nat × List Nat))
+theorem fallback_unique_across (gs : List (FbPrefix × List Nat))
     (hp : gs.Pairwise (fun a b => a.1 ≠ b.1)) (hl : ∀ a ∈ gs, a.2.length < u64) :
     (gs.flatMap (fun a => (fbRun true (fbNew a.1) a.2).out)).Nodup := by
   apply nodup_flatMap_of
@@ -41,7 +45,7 @@ theorem fallback_unique_across (gs : List (Nat × List Nat))
 
 /-- The distinct-prefix hypothesis is necessary: two fallback generators created within the same clock reading
 (`time.Now().UnixNano()` equal) share the prefix and hand out the same ids, starting with the first. -/
-theorem fallback_same_prefix_collides (p : Nat) (s1 s2 : List Nat) (h1 : s1 ≠ []) (h2 : s2 ≠ []) :
+theorem fallback_same_prefix_collides (p : FbPrefix) (s1 s2 : List Nat) (h1 : s1 ≠ []) (h2 : s2 ≠ []) :
     ∃ x, x ∈ (fbRun true (fbNew p) s1).out ∧ x ∈ (fbRun true (fbNew p) s2).out := by
   refine ⟨⟨p, 1⟩, ?_, ?_⟩
   · cases s1 with
@@ -54,6 +58,24 @@ theorem fallback_same_prefix_collides (p : Nat) (s1 s2 : List Nat) (h1 : s1 ≠ 
     | cons i is =>
       simp only [fbRun, List.foldl_cons]
       exact fbRun_mono true is _ _ (by simp [fbStep, fbNew, u64])
+
+/-- With a serial number in the prefix (`fbProgram true`: the package-level atomic counter is mixed in), the
+generators of one program have pairwise distinct prefixes WHATEVER the clock readings are — in particular when
+several are created within one nanosecond — so no distinct-prefix hypothesis is needed: any number of generators
+(fewer than 2^64), any clock readings, any interleaving of draws on each. -/
+theorem fallback_unique_program (gs : List (Nat × List Nat)) (hn : gs.length < u64)
+    (hl : ∀ a ∈ gs, a.2.length < u64) :
+    ((fbProgram true 0 gs).flatMap (fun a => (fbRun true (fbNew a.1) a.2).out)).Nodup := by
+  apply fallback_unique_across
+  · exact fbProgram_pairwise gs 0 (by omega)
+  · intro a ha
+    obtain ⟨g, hg, e⟩ := fbProgram_sched true gs 0 a ha
+    rw [e]; exact hl g hg
+
+/-- With the clock reading alone as prefix, two generators created within one clock reading hand out the same id. -/
+theorem fallback_counterexample_same_clock :
+    ¬ ((fbProgram false 0 [(5, [0]), (5, [0])]).flatMap (fun a => (fbRun true (fbNew a.1) a.2).out)).Nodup := by
+  decide
 
 /-- If the counter were incremented by a plain load and store, two threads could both read 0 and hand out `p-1`. -/
 theorem fallback_counterexample_nonatomic : ¬ (fbRun false (fbNew 5) [0, 1, 0, 1]).out.Nodup := by decide
@@ -159,43 +181,66 @@ example : (run true (init (freshGen 7) 1) staleTimeSchedule).out.Nodup :=
 
 /-! ## The statement -/
 
-/-- C20 on the model, with the two facts about the code as parameters. -/
-def C20_statementFor (ser fbAtomic : Bool) : Prop :=
+/-- C20 on the model, with three facts about the code as parameters: is `SnoGenerator.New` serialised, is the
+fallback counter advanced atomically, does the fallback prefix carry a per-program serial number. -/
+def C20_statementFor (ser fbAtomic fbSerial : Bool) : Prop :=
   -- (a) the fallback generator: one generator, concurrent draws
-  (∀ (p : Nat) (sched : List Nat), sched.length < u64 → (fbRun fbAtomic (fbNew p) sched).out.Nodup) ∧
-  -- (b) several fallback generators created at distinct clock readings
-  (∀ gs : List (Nat × List Nat), gs.Pairwise (fun a b => a.1 ≠ b.1) → (∀ a ∈ gs, a.2.length < u64) →
-      (gs.flatMap (fun a => (fbRun fbAtomic (fbNew a.1) a.2).out)).Nodup) ∧
+  (∀ (p : FbPrefix) (sched : List Nat), sched.length < u64 → (fbRun fbAtomic (fbNew p) sched).out.Nodup) ∧
+  -- (b) the fallback generators one program creates, at arbitrary (possibly equal) clock readings
+  (∀ gs : List (Nat × List Nat), gs.length < u64 → (∀ a ∈ gs, a.2.length < u64) →
+      ((fbProgram fbSerial 0 gs).flatMap (fun a => (fbRun fbAtomic (fbNew a.1) a.2).out)).Nodup) ∧
   -- (c) one sno generator: concurrent draws, ticks, overflow, snapshot/restore at arbitrary points between draws
   (∀ (g0 : Gen) (now0 : Nat) (sched : List Ev), g0.wallHi ≤ now0 → (run ser (init g0 now0) sched).out.Nodup) ∧
   -- (d) several sno generators alive at once
   (∀ gs : List (Gen × Nat × List Ev), gs.Pairwise (fun a b => a.1.part ≠ b.1.part) →
       (∀ a ∈ gs, a.1.wallHi ≤ a.2.1) → (gs.flatMap (fun a => (run ser (init a.1 a.2.1) a.2.2).out)).Nodup)
 
-/-- the full statement: ids never collide, whether or not callers of `SnoGenerator.New` are serialised -/
-def C20_statement : Prop := ∀ ser : Bool, C20_statementFor ser true
+/-- the full statement: ids never collide, whether or not callers of `SnoGenerator.New` are serialised and
+whether or not fallback prefixes carry a serial number -/
+def C20_statement : Prop := ∀ ser fbSerial : Bool, C20_statementFor ser true fbSerial
 
-/-- C20 holds on the model under the hypothesis that excludes the witnesses: `New` serialised (and the fallback
-counter atomic, which it is). Still for every schedule, every number of threads, draws and generators. -/
-theorem C20_partial : C20_statementFor true true :=
-  ⟨fun p s h => (fallback_unique p s h).1, fallback_unique_across,
+/-- C20 holds on the model under the hypotheses that exclude the witnesses: `New` serialised, fallback counter
+atomic, fallback prefix with serial number. Still for every schedule, every number of threads, draws, generators. -/
+theorem C20_partial : C20_statementFor true true true :=
+  ⟨fun p s h => (fallback_unique p s h).1, fallback_unique_program,
    sno_unique_serialised, sno_unique_across_generators⟩
 
-theorem C20_general (ser fbAtomic : Bool) (h1 : ser = true) (h2 : fbAtomic = true) :
-    C20_statementFor ser fbAtomic := by subst h1; subst h2; exact C20_partial
+theorem C20_general (ser fbAtomic fbSerial : Bool) (h1 : ser = true) (h2 : fbAtomic = true)
+    (h3 : fbSerial = true) : C20_statementFor ser fbAtomic fbSerial := by
+  subst h1; subst h2; subst h3; exact C20_partial
 
 /-- without the mutex the model violates clause (c), whatever the fallback generator does -/
-theorem C20_cex_unserialised (fbAtomic : Bool) : ¬ C20_statementFor false fbAtomic := by
+theorem C20_cex_unserialised (fbAtomic fbSerial : Bool) : ¬ C20_statementFor false fbAtomic fbSerial := by
   intro h
   exact C20_counterexample_stale_time (h.2.2.1 (freshGen 7) 1 staleTimeSchedule (by decide))
 
 /-- with a non-atomic fallback counter the model violates clause (a) -/
-theorem C20_cex_nonatomic_counter (ser : Bool) : ¬ C20_statementFor ser false := by
+theorem C20_cex_nonatomic_counter (ser fbSerial : Bool) : ¬ C20_statementFor ser false fbSerial := by
   intro h
   exact fallback_counterexample_nonatomic (h.1 5 [0, 1, 0, 1] (by decide))
 
+/-- with the clock reading alone as fallback prefix the model violates clause (b) -/
+theorem C20_cex_clock_only_prefix (ser : Bool) : ¬ C20_statementFor ser true false := by
+  intro h
+  exact fallback_counterexample_same_clock (h.2.1 [(5, [0]), (5, [0])] (by decide) (by decide))
+
+/-- the statement holds exactly when all three facts are as required: whatever the extracted facts are, the model
+either satisfies C20 or provably violates it -/
+theorem C20_decided (ser fbAtomic fbSerial : Bool) :
+    C20_statementFor ser fbAtomic fbSerial ↔ (ser = true ∧ fbAtomic = true ∧ fbSerial = true) := by
+  constructor
+  · intro h
+    cases ser
+    · exact absurd h (C20_cex_unserialised _ _)
+    · cases fbAtomic
+      · exact absurd h (C20_cex_nonatomic_counter _ _)
+      · cases fbSerial
+        · exact absurd h (C20_cex_clock_only_prefix _)
+        · exact ⟨rfl, rfl, rfl⟩
+  · intro ⟨h1, h2, h3⟩; exact C20_general _ _ _ h1 h2 h3
+
 /-- the full statement is false on the faithful model -/
-theorem C20_not_holds : ¬ C20_statement := fun h => C20_cex_unserialised true (h false)
+theorem C20_not_holds : ¬ C20_statement := fun h => C20_cex_unserialised true true (h false true)
 
 /-- the dichotomy the extracted facts select from (see `C20Current.lean`) -/
 def SnoClaim : Bool → Prop
@@ -208,17 +253,31 @@ theorem sno_dichotomy : ∀ b, SnoClaim b
   | false => ⟨_, rfl, C20_counterexample_stale_time⟩
 
 def FallbackClaim : Bool → Prop
-  | true => ∀ (p : Nat) (sched : List Nat), sched.length < u64 → (fbRun true (fbNew p) sched).out.Nodup
+  | true => ∀ (p : FbPrefix) (sched : List Nat), sched.length < u64 → (fbRun true (fbNew p) sched).out.Nodup
   | false => ¬ (fbRun false (fbNew 5) [0, 1, 0, 1]).out.Nodup
 
 theorem fallback_dichotomy : ∀ b, FallbackClaim b
   | true => fun p s h => (fallback_unique p s h).1
   | false => fallback_counterexample_nonatomic
 
+/-- fallback prefixes: with a serial number, uniqueness across the generators of a program for arbitrary clock
+readings; with the clock reading alone, the same-clock witness -/
+def FallbackPrefixClaim : Bool → Prop
+  | true => ∀ gs : List (Nat × List Nat), gs.length < u64 → (∀ a ∈ gs, a.2.length < u64) →
+      ((fbProgram true 0 gs).flatMap (fun a => (fbRun true (fbNew a.1) a.2).out)).Nodup
+  | false => ¬ ((fbProgram false 0 [(5, [0]), (5, [0])]).flatMap (fun a => (fbRun true (fbNew a.1) a.2).out)).Nodup
+
+theorem fallback_prefix_dichotomy : ∀ b, FallbackPrefixClaim b
+  | true => fallback_unique_program
+  | false => fallback_counterexample_same_clock
+
 /-! Non-vacuity of the implications (tests, not the claim). -/
+example : (fbProgram true 0 [(5, [0, 1]), (5, [0])]).map (·.1) = [⟨5, 1⟩, ⟨5, 2⟩] := by decide
+example : ((fbProgram true 0 [(5, [0, 1]), (5, [0])]).flatMap (fun a => (fbRun true (fbNew a.1) a.2).out)) =
+    [⟨⟨5, 1⟩, 2⟩, ⟨⟨5, 1⟩, 1⟩, ⟨⟨5, 2⟩, 1⟩] := by decide
 example : (List.length [0, 1, 2, 1, 0] < u64) := by decide
 example : (fbRun true (fbNew 9) [0, 1, 2, 1, 0]).out = [⟨9, 5⟩, ⟨9, 4⟩, ⟨9, 3⟩, ⟨9, 2⟩, ⟨9, 1⟩] := by decide
-example : [((3 : Nat), [0, 1]), (4, [0])].Pairwise (fun a b => a.1 ≠ b.1) := by decide
+example : [((3 : FbPrefix), [0, 1]), (4, [0])].Pairwise (fun a b => a.1 ≠ b.1) := by decide
 example : (freshGen 7).wallHi ≤ 1 := by decide
 example : [(freshGen 1, 1, [Ev.thr 0]), (freshGen 2, 1, [])].Pairwise (fun a b => a.1.part ≠ b.1.part) := by decide
 example : genPartition 65530 3 ≠ genPartition 65530 10 := by decide
